@@ -40,11 +40,11 @@ type revSpec struct {
 }
 
 type history struct {
-	nums []int // object numbers under test
-	revs []revSpec
+	nums        []int // object numbers under test
+	revs        []revSpec
 	lenIndirect bool
-	eol  string
-	shuffle bool
+	eol         string
+	shuffle     bool
 }
 
 func (h history) String() string {
